@@ -720,6 +720,10 @@ impl<'tcx> Cx<'tcx> {
         let dp = defpath(tcx, did);
         let plumbing = dp.starts_with("std::option::Option::<T>::")
             || dp.starts_with("core::option::Option::<T>::")
+            || dp.starts_with("std::option::Option::<&T>::")
+            || dp.starts_with("core::option::Option::<&T>::")
+            || dp.starts_with("std::option::Option::<&mut T>::")
+            || dp.starts_with("core::option::Option::<&mut T>::")
             || dp.starts_with("std::result::Result::<T, E>::")
             || dp.starts_with("core::result::Result::<T, E>::")
             || dp.starts_with("std::bool::<impl bool>::then")
